@@ -28,8 +28,12 @@ if rust:
     shutil.rmtree("/tmp/seed_target", ignore_errors=True)
 meta.update(demo_without_change_exit=rc0, demo_with_change_exit=rc1, suite_with_change=tout.strip().splitlines()[-1] if tout.strip() else "",
             confirmed=(rc0 == 0 and rc1 != 0 and "1606 passed" in tout))
-# run my checks against /repo with the change
+# run my checks against /repo with the change (evidence files of the unchanged tree are preserved)
 res = {}
+import tempfile
+_ev_backup = tempfile.mkdtemp(prefix="evbak_")
+for f in os.listdir("/verif/evidence"):
+    shutil.copy(os.path.join("/verif/evidence", f), _ev_backup)
 rc, out = sh(f"git -C /repo apply {patch}")
 assert rc == 0, out
 try:
@@ -40,6 +44,9 @@ try:
         res[c] = {"exit": rcc, "lines": [v[:300] for v in viol[:6]], "n_lines": len(viol), "wall_s": round(time.time() - t0)}
 finally:
     sh("git -C /repo checkout -- .")
+    for f in os.listdir(_ev_backup):
+        shutil.copy(os.path.join(_ev_backup, f), "/verif/evidence")
+    shutil.rmtree(_ev_backup, ignore_errors=True)
 meta["checks"] = res
 meta["detected"] = any(r["exit"] == 1 for r in res.values())
 meta["needs"] = notes[:1500]
